@@ -1,4 +1,5 @@
 import SoxrModel.Cr.Schedule
+import SoxrModel.Cr.ApiData
 import SoxrModel.Properties.C03
 /-!
 # C05 Schedule invariance: streamed, pulled and one-shot output are bit-identical
@@ -91,6 +92,28 @@ theorem delivered_is_canonical (K : Kern α) (z : α) (owed : Nat → Nat) (plan
   simp only [List.nil_append] at this
   exact this
 
+/-- a newly created resampler object (an input function may or may not be registered) -/
+def freshApi (z : α) (plan : Plan) (hasFn : Bool) (maxIlen : Nat) : DApi α :=
+  { eng := DEng.fresh z plan, hasFn := hasFn, maxIlen := maxIlen }
+
+/-- **Push, pull and one-shot are the same function of the input stream.**  Take ANY two sequences of API calls on
+    newly created resamplers of the same plan — `soxr_process` with or without `idone`, with or without an
+    end-of-input request, `soxr_output` against an input function that answers with ANY script of full / short / empty
+    supplies, end-of-input or failure, in any mix, `soxr_oneshot` being the one-call case — whose accepted input runs
+    over the same stream `xs`.  What one has delivered is a prefix of what the other has delivered; with equally many
+    frames delivered the samples are identical. -/
+theorem pull_push_oneshot (K : Kern α) (z : α) (owed : Nat → Nat) (plan : Plan) (hwf : PlanWF plan) (xs : List α)
+    (fn₁ fn₂ : Bool) (mi₁ mi₂ : Nat) (calls₁ calls₂ : List (ACall α)) (F₁ F₂ D₁ D₂ : List α) (a₁ a₂ : DApi α)
+    (r₁ : ApiRuns K z owed (freshApi z plan fn₁ mi₁) calls₁ F₁ D₁ a₁) (r₂ : ApiRuns K z owed (freshApi z plan fn₂ mi₂) calls₂ F₂ D₂ a₂)
+    (o₁ : OverStream xs F₁ a₁.eng.fl) (o₂ : OverStream xs F₂ a₂.eng.fl) :
+    (D₁ <+: D₂ ∨ D₂ <+: D₁) ∧ (D₁.length = D₂.length → D₁ = D₂) := by
+  have s0 : ∀ fn mi, Sync (freshApi z plan fn mi : DApi α) := by
+    intro fn mi hh; simp [freshApi, DEng.fresh] at hh
+  obtain ⟨ops1, e1, _⟩ := api_runs_engine K z owed calls₁ _ _ _ _ r₁ (s0 fn₁ mi₁)
+  obtain ⟨ops2, e2, _⟩ := api_runs_engine K z owed calls₂ _ _ _ _ r₂ (s0 fn₂ mi₂)
+  have hc := runs_comparable K z owed plan hwf xs ops1 ops2 F₁ F₂ D₁ D₂ _ _ e1 e2 o₁ o₂
+  exact ⟨hc, fun hl => hc.eq_of_length hl⟩
+
 /-- **The tie.**  Forgetting the samples, the data-level engine *is* the count model that the correspondence check
     compares with the real code call by call: same stage scheduling, same counts, same clocks. -/
 theorem control_is_the_count_model (K : Kern α) (z : α) :
@@ -102,6 +125,17 @@ theorem control_is_the_count_model (K : Kern α) (z : α) :
         ((e.output n0).2.length : Int) = max 0 (e.toEng.output n0).2) :=
   ⟨fun fl fuel l done => dsp_proj K z fl fuel l done, fun fuel e olen => DEng.process_proj K z fuel e olen,
    DEng.input_proj, DEng.flush_proj, DEng.output_proj⟩
+
+/-- … and the API layer on samples is the count-level API model (`Api`, `pullLoop` of `Cr/Model.lean`) that the
+    correspondence replays against every real `soxr_process` / `soxr_output` call (request log aside). -/
+theorem api_is_the_count_model (K : Kern α) (z : α) (num : Num) :
+    (∀ fuel (a : DApi α) len, (a.outputNoCb K z num.owed fuel len).map (fun r => (r.1.toApi, r.2.length)) = a.toApi.outputNoCb num fuel len) ∧
+    (∀ (a : DApi α) xs, (a.input xs).toApi = a.toApi.input xs.length) ∧
+    (∀ fuel len0 ilen k (a : DApi α) olen out0 script reqs,
+      (dpullLoop K z num.owed fuel len0 k a olen out0 script).map (fun r => (r.1.toApi, r.2.1.length, r.2.2.map DSupply.toSupply)) =
+      (pullLoop num fuel len0 ilen k a.toApi olen out0.length (script.map DSupply.toSupply) reqs).map (fun r => (r.1, r.2.1, r.2.2.1))) :=
+  ⟨fun fuel a len => outputNoCb_proj K z num fuel a len, input_proj,
+   fun fuel len0 ilen k a olen out0 script reqs => dpullLoop_proj K z num fuel len0 ilen k a olen out0 script reqs⟩
 
 /-! ## non-vacuity: a concrete plan, kernel and two different schedules -/
 
@@ -132,6 +166,30 @@ def chunked : List (DOp Int) :=
    .flush, .take 1, .take 0, .take 2, .take 100]
 
 example : (runOps oneshot).map (·.1) = (runOps chunked).map (·.1) ∧ ((runOps oneshot).map (·.1.length)) = some (exOwed 20) := by
+  decide
+
+/-- the three calling styles on the concrete plan: one-shot, push in odd blocks with `idone`, pull with short supplies -/
+def apiRun (a : DApi Int) (calls : List (ACall Int)) : Option (List Int × DApi Int) :=
+  calls.foldl (fun acc c => match acc with
+    | none => none
+    | some (D, a) => match c with
+      | .process inp fr cl olen script => match a.process exK 0 exOwed 100 inp fr cl olen script with
+        | none => none
+        | some (a2, _, out, _) => some (D ++ out, a2)
+      | .output len0 script => match a.output exK 0 exOwed 100 len0 script with
+        | none => none
+        | some (a2, out, _) => some (D ++ out, a2)) (some ([], a))
+
+def callsOneshot : List (ACall Int) := [.process (some exXs) true none 100 []]
+def callsPush : List (ACall Int) :=
+  [.process (some (exXs.take 7)) false (some 7) 2 [], .process (some ((exXs.drop 7).take 5)) false none 0 [],
+   .process (some (exXs.drop 12)) false none 3 [], .process none false none 1 [], .process none false none 100 []]
+def callsPull : List (ACall Int) :=
+  [.output 2 [.data (exXs.take 3), .data ((exXs.drop 3).take 1)], .output 100 [.data ((exXs.drop 4).take 9), .data (exXs.drop 13), .eof]]
+
+example : (apiRun (freshApi 0 exPlan false 0) callsOneshot).map (·.1) = (apiRun (freshApi 0 exPlan false 0) callsPush).map (·.1) ∧
+    (apiRun (freshApi 0 exPlan false 0) callsOneshot).map (·.1) = (apiRun (freshApi 0 exPlan true 64) callsPull).map (·.1) ∧
+    (apiRun (freshApi 0 exPlan false 0) callsOneshot).map (·.1.length) = some (exOwed 20) := by
   decide
 
 end Soxr.Properties.C05
